@@ -63,8 +63,63 @@ def cases_1d(rng, tier):
     return cs
 
 
+def _legal_off(rng, n, m):
+    return rng.randint(0, abs(m - n))
+
+
+def cases_nd(rng, tier):
+    cs = C.CaseSet('resizeNd', ['C16.Syntax', 'Gen.Padding', 'C16.Model', 'C16.ModelNd', 'C16.Corr'],
+                   'checkN', 'caseN')
+    nper = 12 if tier == 'quick' else 60
+    for mode, d in itertools.product(MODES, DIRS):
+        for k in range(nper):
+            ndim = rng.choice([2, 2, 2, 3]) if k % 6 else 1
+            hi = 4 if ndim == 2 else 3
+            ish = [rng.randint(1 if k % 7 else 0, hi + 1) for _ in range(ndim)]
+            osh = [rng.randint(1 if k % 5 else 0, hi + 2) for _ in range(ndim)]
+            kind = k % 4   # 0,1,2: admissible offsets (mostly legal paddings); 3: arbitrary offsets
+            offs = []
+            for a in range(ndim):
+                n_in, n_out = ish[a], osh[a]
+                small, large = (n_in, n_out) if d == 'forward' else (n_out, n_in)
+                if kind == 3:
+                    offs.append(rng.randint(-1, abs(n_out - n_in) + 1))
+                    continue
+                # try to make the padding legal for the mode by shrinking the size change
+                if large > small and kind != 2:
+                    lim = {'symmetric': small - 1, 'periodic': small}.get(mode, 99)
+                    lim = max(lim, 0)
+                    grow = min(large - small, 2 * lim)
+                    if d == 'forward':
+                        osh[a] = small + grow
+                    else:
+                        ish[a] = small + grow
+                    lo = max(0, grow - lim)
+                    offs.append(rng.randint(lo, min(lim, grow)) if grow else 0)
+                else:
+                    offs.append(_legal_off(rng, n_in, n_out))
+            dt = rng.choice([float, float, int])
+            arr = np.array([rng.randint(-9, 9) for _ in range(int(np.prod(ish)))], dtype=dt).reshape(ish)
+            if mode == 'constant':
+                c = rng.choice([0, 0, 1, -2, 1.5]) if d == 'forward' else rng.choice([0, 0, 0, 1])
+            else:
+                c = 0
+            cast = bool(np.can_cast(c, arr.dtype))
+            out = impl_resize(arr, tuple(osh), offs, mode, c, d)
+            term = ('{| n_m := %s; n_d := %s; n_c := %s; n_cast := %s; n_ishape := %s%%nat; n_arr := %s; '
+                    'n_oshape := %s%%nat; n_offs := %s%%Z; n_out := %s |}'
+                    % (T.PMODE[mode], DIRK[d], C.q(c), C.b(cast), C.nats(ish), C.qs(arr.ravel().tolist()),
+                       C.nats(osh), C.zs(offs), out))
+            key = ((mode, d, tuple(ish), tuple(osh), tuple(offs), c, dt.__name__, tuple(arr.ravel().tolist()))
+                   if (arr.any() or out.startswith('IValueErr')) else None)
+            cs.add(term, {'mode': mode, 'direction': d, 'ishape': ish, 'oshape': osh, 'offset': offs,
+                          'dtype': dt.__name__, 'pad_const': c, 'arr': arr.tolist(),
+                          'outcome': out[:10]}, key)
+    return cs
+
+
 def correspondence(rng, tier):
-    return [cases_1d(rng, tier)]
+    return [cases_1d(rng, tier), cases_nd(rng, tier)]
 
 
 def probes(rng, tier):
